@@ -25,10 +25,18 @@ FillIt == /\ phase = "built" /\ Len(filled[2]) + Len(filled[3]) < NF
                /\ tree' = Fill(tree, <<p>>, id, reset)
                /\ filled' = [filled EXCEPT ![id] = IF reset THEN <<p>> ELSE Append(filled[id], p)]
           /\ UNCHANGED <<data, ub, lb, phase>>
-Next == AddPoint \/ BuildIt \/ FillIt
+(* build() on a partitioner that already holds a tree: the object forgets the old tree, its leaf list and every count - what follows is what
+   follows on a new object with the same two parameters (so the states reached are the ones already explored: the action adds edges only).
+   KDQTreePartitioner.build used to append the new leaves to the old list (known finding F24, fixed). *)
+Rebuild == /\ phase = "built"
+           /\ data' = <<>> /\ tree' = "None" /\ filled' = [i \in 1..NIds |-> <<>>] /\ phase' = "collect"
+           /\ UNCHANGED <<ub, lb>>
+Next == AddPoint \/ BuildIt \/ FillIt \/ Rebuild
 Spec == Init /\ [][Next]_vars
 
 Built == phase = "built"
+(* the leaf list of a (re)built partitioner is the leaf list of its CURRENT tree: one entry per leaf, none left over *)
+FreshLeaves == [][phase = "collect" /\ phase' = "built" => Len(LeafCounts(tree', 1)) = NLeaves(tree') /\ SumInts(LeafCounts(tree', 1)) = Len(data)]_vars
 (* every grid point lies in exactly one leaf cell, and the cells are those the splits define *)
 Partition == Built => \A p \in Pts : LeafIndex(tree, p, 1) \in 1..NLeaves(tree)
 NoSmallSplit == Built => StopRule(tree, ub)
